@@ -40,6 +40,15 @@ class FuncV:
     def __init__(self, kind, target, self_val=None, env=None, mi=None, after=None):
         self.kind, self.target, self.self_val, self.env, self.mi, self.after = kind, target, self_val, env, mi, after
 
+    def __eq__(self, other):
+        # two references to the same class are the same value (`mol_type in contrib_types`, `.index(mol_type)`)
+        if isinstance(other, FuncV) and self.kind == 'class' and other.kind == 'class':
+            return self.target == other.target
+        return self is other
+
+    def __hash__(self):
+        return hash((self.kind, self.target)) if self.kind == 'class' else id(self)
+
 
 class ModV:
     """module alias value (np, math, ...)"""
@@ -173,31 +182,61 @@ class Exec:
                     or any(fnmatch.fnmatch(st.tags[h.get_id()], pat) for pat in keep)]
             goal = goal.goal
         if isinstance(goal, Hinted):
-            hyps = hyps + [d for d in goal.defs if d is not True]
-            base = hyps
-            lems = []
-            for i, lem in enumerate(goal.lemmas):
-                if isinstance(lem, Congr):
-                    self.obls.append(Obl('%s.hint%d' % (name, i), kind, hyps, lem.pointwise, line, note))
-                    lem = lem.concl
-                elif isinstance(lem, Pure):
-                    self.obls.append(Obl('%s.hint%d' % (name, i), kind, [h for h in lem.hyps if h is not True], lem.goal,
-                                         line, note, ground=lem.ground))
-                    lem = lem.goal
-                else:
-                    lem = as_term(lem) if not is_sym(lem) else lem
-                    self.obls.append(Obl('%s.hint%d' % (name, i), kind, hyps, lem, line, note))
-                hyps = hyps + [lem]
-                lems.append(lem)
-            if goal.final_uses is not None:
-                hyps = base + lems[len(lems) - goal.final_uses:]
-            goal = goal.goal
+            hyps, goal = self._chain(name, kind, hyps, goal, line, note)
         if goal is True:
             goal = z3.BoolVal(True)
         elif goal is False:
             goal = z3.BoolVal(False)
         self.obls.append(Obl(name, kind, hyps, goal, line, note))
         return name
+
+    def _chain(self, name, kind, hyps, goal, line, note):
+        """obligations of a lemma chain; returns (hypotheses for the final goal, final goal).  A lemma that is itself a
+        chain (c.hint / c.ForallH inside the lemma list) is proved the same way under the current hypotheses and then
+        used as its universal closure over the arbitrary constants it was proved for."""
+        hyps = hyps + [d for d in goal.defs if d is not True]
+        base = hyps
+        lems = []
+        for i, lem in enumerate(goal.lemmas):
+            hn = '%s.hint%d' % (name, i)
+            if isinstance(lem, Hinted):
+                h2, g2 = self._chain(hn, kind, hyps, lem, line, note)
+                if g2 is True:
+                    continue
+                self.obls.append(Obl(hn, kind, h2, g2 if is_sym(g2) else as_term(g2), line, note))
+                lem = lem.closed()
+            elif isinstance(lem, Congr):
+                if lem.hyps is None:
+                    self.obls.append(Obl(hn, kind, hyps, lem.pointwise, line, note))
+                else:
+                    self.obls.append(Obl(hn, kind, [h for h in lem.hyps if h is not True], lem.pointwise, line, note, ground=True))
+                    self._given(hn, kind, hyps, lem, line, note)
+                lem = lem.concl
+            elif isinstance(lem, Pure):
+                self.obls.append(Obl(hn, kind, [h for h in lem.hyps if h is not True], lem.goal, line, note, ground=lem.ground))
+                self._given(hn, kind, hyps, lem, line, note)
+                lem = lem.goal
+            else:
+                lem = as_term(lem) if not is_sym(lem) else lem
+                self.obls.append(Obl(hn, kind, hyps, lem, line, note))
+            hyps = hyps + [lem]
+            lems.append(lem)
+        if goal.final_uses is not None:
+            hyps = base + lems[len(lems) - goal.final_uses:]
+        return hyps, goal.goal
+
+    def _given(self, hn, kind, hyps, lem, line, note):
+        """the listed hypotheses of a Pure lemma / a Congr step with `given` are facts only if they follow from what is
+        known at this point of the chain (instances of the defining axiom of a spec sum are valid by definition)"""
+        ph = [h for h in lem.hyps if h is not True and is_sym(h)
+              and not any(h.eq(x) for x in getattr(self.c, 'axiom_inst', []))]
+        if any(h is False for h in lem.hyps):
+            ph.append(z3.BoolVal(False))
+        if ph:
+            g = z3.And(*ph) if len(ph) > 1 else ph[0]
+            for r in reversed(lem.guards):
+                g = z3.Implies(r, g)
+            self.obls.append(Obl(hn + '.given', kind, hyps, g, line, note))
 
     def oblige_all(self, kind, st, goals, node=None):
         """named clauses are proved in order, each one with the earlier clauses as extra hypotheses
@@ -629,6 +668,8 @@ class Exec:
         body_st.assume(lo_t <= k, k < hi_t)
         body_st.env['loop%d_index' % ordinal] = k
         body_st.assume_named('inv%d' % ordinal, self.assumed_inv(inv, body_st, v0, k))
+        # ghost: the state at the head of this (arbitrary) iteration, for invariants that relate end to start
+        body_st.env['loop_entry'] = View(self.c, dict(body_st.env), dict(body_st.heap))
         self.assign(node.target, elem(k, body_st) if elem else k, body_st, node)
         outs = []
         for s2, kind, p in self.exec_block(node.body, body_st):
